@@ -408,6 +408,21 @@ func init() {
 		return notHandled
 	}
 
+	E["strings.ContainsRune"] = func(fr *frame, args []value) value {
+		sv, ok := args[1].(symv)
+		s, isStr := args[0].(string)
+		if !ok || !isStr {
+			return notHandled
+		}
+		c := fr.i.tc
+		r32 := c.resize(sv.t, 32, true)
+		res := c.tbool(false)
+		for _, r := range s {
+			res = c.or(res, c.eq(r32, c.konst(sBV32, uint64(uint32(r)))))
+		}
+		return fromTerm(res, types.Bool)
+	}
+
 	// ---- unicode classes on symbolic runes: range-set formulas ----
 	uni := func(name string, tabs ...*unicode.RangeTable) {
 		E["unicode."+name] = func(fr *frame, args []value) value {
